@@ -251,22 +251,26 @@ def check(pid, tier, seed):
                 t['tid'] = len(traces) + 1
                 traces.append(t)
             slim = [{k: t[k] for k in ('kind', 'nurls', 'maxretry', 'steps')} for t in traces]
-            res, failures = validate_traces(sc, 'DaemonRetryTrace', 'DaemonRetryTrace.cfg', slim, workers=16)
+            # two runs: TLC reports one violated invariant per state, and a wrong sleep (drift) poisons every later state of
+            # its trace - the decisive clauses are checked on their own
+            res, failures = validate_traces(sc, 'DaemonRetryTrace', 'DaemonRetryTrace.cfg', slim, workers=16,
+                                            invariants={'NotStuck', 'Complete'})
+            _res2, sleepf = validate_traces(sc, 'DaemonRetryTrace', 'DaemonRetryTrace.cfg', slim, workers=16,
+                                            invariants={'SleepLaw'}, name='sleep.json')
             out.add(traces_validated_against_impl=len(traces), model_transitions_replayed=nmodel,
                     trace_states=res.distinct)
+            dt = sorted({f['tid'] for f in sleepf})
+            ndrift = len(dt)
+            for tid in dt[:3]:
+                t = traces[tid - 1]
+                out.drift.append(f'sleep durations deviate from the back-off law: {t["kind"]} {t["script"]} -> '
+                                 f'{[s.get("dur") for s in t["steps"] if s["ev"] == "sleep"]}')
             seen = set()
-            ndrift = 0
             for f in sorted(failures, key=lambda f: (f['tid'], f['l'])):
                 if f['tid'] in seen:
                     continue
                 seen.add(f['tid'])
                 t = traces[f['tid'] - 1]
-                if f['clause'] == 'SleepLaw':
-                    ndrift += 1
-                    if len(out.drift) < 3:
-                        out.drift.append(f'sleep durations deviate from the back-off law: {t["kind"]} {t["script"]} -> '
-                                         f'{[s.get("dur") for s in t["steps"] if s["ev"] == "sleep"]}')
-                    continue
                 if len(out.violations) < 5:
                     step = t['steps'][min(f['l'], len(t['steps'])) - 1]
                     out.violation(f"{f['clause']}: {t['kind']} call with {t['nurls']} URL(s), daemon script {t['script']}: "
@@ -290,7 +294,7 @@ def replay(doc):
         for s in t['steps']:
             print(s)
         with Scratch('c18r') as sc:
-            _res, failures = validate_traces(sc, 'DaemonRetryTrace', 'DaemonRetryTrace.cfg',
+            _res, failures = validate_traces(sc, 'DaemonRetryTrace', 'DaemonRetryTrace.cfg', invariants={'NotStuck', 'Complete'}, traces=
                                              [{k: t[k] for k in ('kind', 'nurls', 'maxretry', 'steps')}], workers=1)
         failures = [f for f in failures if f['clause'] != 'SleepLaw']
         if failures:
